@@ -1,2 +1,57 @@
+"""C07 additional clauses: completion barrier for shared outer-join state (R5), no Option-ordered MIN merge of partial states (R6),
+probe-side agreement (R3), constant-seed routing hashers (R4)."""
+from qe import *
+import k9
+import guards
+
+HJ = "physical::operators::hash_join"
+CACHE = HJ + "::BuildSideCache"
+
+
 def run(F, R):
-    pass
+    R.rule("C07.R5", "K3 completion barrier", "every scan of the shared build_matched bits (AtomicBool::load) is dominated by `completed_partitions.fetch_add(1)+1 == output_partitions()`: only the LAST partition to finish emits unmatched build rows, whatever the finishing order")
+    R.rule("C07.R6", "K4", "partial aggregate states are never merged with Ord::min over Option values (None < Some would let an all-NULL partial erase a real minimum depending on the batch split)")
+    # ---------------- R5
+    scans = []
+    for g in F.fns_touching("build_matched", CACHE):
+        for c in g.calls():
+            if c.name.endswith("AtomicBool::load") or (c.name.rsplit("::", 1)[-1] == "load" and "AtomicBool" in c.self_ty or "Atomic<bool>" in c.self_ty and c.name.rsplit("::", 1)[-1] == "load"):
+                if derives_from(g, [c.args[0]], lambda k, x: (k == "place" and ("build_matched", CACHE) in place_fields(x)) or None):
+                    scans.append((g, c))
+    R.floor("C07.R5", "scans of build_matched bits", len(scans), 1)
+    for g, c in scans:
+        gs = guards.guards_of(g, c.bb, require_err=False)
+        ok = False
+        seen = []
+        for sb, cond, val in gs:
+            seen.append(cond)
+            si = g.switch_info(sb)
+            if si[0] != "bool" or si[1] is None:
+                continue
+            fa = derives_from(g, ["c:" + si[1]], lambda k, x: x if (k == "call" and x.name.rsplit("::", 1)[-1] == "fetch_add" and
+                              derives_from(g, [x.args[0]], lambda k2, y: (k2 == "place" and ("completed_partitions", CACHE) in place_fields(y)) or None)) else None)
+            op = derives_from(g, ["c:" + si[1]], lambda k, x: x if (k == "call" and x.name.rsplit("::", 1)[-1] == "output_partitions") else None)
+            if fa and op and cond.startswith("Eq(") and val is True:
+                ok = True
+        R.check(ok, "C07.R5", f"{F.bodies[g.path].get('root') or g.path}:unmatched-scan", "unmatched build rows are scanned without the last-partition-to-finish barrier (completed_partitions.fetch_add == output_partitions): a fast partition would emit rows a slower one later matches", g.loc(c.bb), dict(guards=seen[:6]))
+    # the counter is only ever advanced by fetch_add(1)
+    for g in F.fns_touching("completed_partitions", CACHE):
+        for c in g.calls():
+            if c.self_ty.startswith("std::sync::atomic::Atomic<") and derives_from(g, [c.args[0]], lambda k, x: (k == "place" and ("completed_partitions", CACHE) in place_fields(x)) or None):
+                last = c.name.rsplit("::", 1)[-1]
+                R.check(last in ("fetch_add", "load", "new") and (last != "fetch_add" or op_const(origin(g, c.args[1])[1]) == 1 if origin(g, c.args[1])[0] == "const" else last != "fetch_add"),
+                        "C07.R5", f"completed_partitions:{last}", "completion counter is modified other than by fetch_add(1)", g.loc(c.bb), nontrivial=False)
+
+    # ---------------- R6
+    files = ("src/physical/operators/hash_agg.rs", "src/physical/morsel_agg.rs", "src/physical/operators/morsel_agg.rs", "src/physical/vectorized_agg.rs", "src/physical/operators/spillable.rs")
+    mins = F.callers_matching(lambda n: n in ("std::cmp::Ord::min", "std::cmp::min", "std::cmp::min_by", "std::cmp::PartialOrd::lt") or n.endswith(">::min"))
+    n = 0
+    for c in mins:
+        if c.fn.file not in files or c.name.rsplit("::", 1)[-1] != "min":
+            continue
+        n += 1
+        opt = c.self_ty.startswith("std::option::Option<") or (c.argtys and c.argtys[0].startswith("std::option::Option<"))
+        if opt:
+            R.bad("C07.R6", f"{c.fn.path}:Option-min", "MIN of partial states computed with Option's ordering (None < Some): an all-NULL partial makes the merged minimum NULL, depending on how rows were split into batches", c.fn.loc(c.bb), dict(site=str(c), types=c.argtys))
+    R.floor("C07.R6", "min() calls in aggregate code examined", n, 5)
+    R.ok("C07.R6", "no-Option-min-in-aggregate-merge", dict(min_calls_examined=n), nontrivial=True)
